@@ -11,7 +11,7 @@ HEADER = ("Require Import SqlV.Base SqlV.Machine SqlVGen.KeywordTable SqlVGen.Ma
           "Definition W (v k : string) := TWord (s2l v) None (s2l k).\n"
           "Definition Wq (v : string) (q : N) := TWord (s2l v) (Some q) (s2l \"NoKeyword\").\n"
           "Definition T (t : token) (l c : N) := {| tok := t; line := l; col := c |}.\n"
-          "Definition D0 : dial := {| d_tc := false; d_proj_tc := false; d_reserved := reserved_for_column_alias |}.\n"
+          "Definition D0 : dial := mk_dial false false reserved_for_column_alias.\n"
           "Definition chk (c : list twl * bool * nat * list prog * list (outcome val)) : bool :=\n"
           "  match c with (ts, tcb, lim, ops, ex) => outcomes_eqb (run_ops maybe_reraises_limit 40 D0 ops (init_state ts tcb lim)) ex end.\n")
 
